@@ -6,7 +6,7 @@ as text, so that a second kind of failure joins an already reported one), an eng
 subset, workers 1-4, continue_on_failure, max_failures, unique_inputs, modes) and **at most one injected fault**, reached
 through public extension points only: a malformed operation / a parameter example that is not JSON-serialisable
 (test construction), a raising ``before_init_operation`` / ``before_generate_query`` / ``map_query`` / ``map_case`` hook
-(construction, generation), a raising ``before_call`` hook, a dropped connection (transport), a raising ``after_call`` hook
+(construction, generation), a raising user-registered serializer (serialization), a raising ``before_call`` hook, a dropped connection (transport), a raising ``after_call`` hook
 or custom check (check execution), a CLI event handler raising on the k-th event (event handling).
 The run goes through the real CLI in-process.
 Oracle (one-directional implications over exit code, printed report and recorded traffic, for runs that were not
@@ -36,7 +36,7 @@ ASSUMPTIONS = ["faults are injected through public extension points (hooks, cust
 
 TITLES = {"not_a_server_error": "Server error", "status_code_conformance": "Undocumented HTTP status code", "content_type_conformance": "Undocumented Content-Type", "response_schema_conformance": "Response violates schema"}
 BEHAVIOURS = ["ok", "ok", "500", "500-after-2", "500-json-then-text", "wrong-content-type", "undocumented-status", "bad-body"]
-FAULTS = [None, None, "malformed-operation", "binary-example", "before_init_operation", "before_generate_query", "map_query", "map_case", "before_call", "after_call", "check-runtime-error", "drop-connection", "handler-raises"]
+FAULTS = [None, None, "malformed-operation", "binary-example", "before_init_operation", "before_generate_query", "map_query", "map_case", "before_call", "after_call", "check-runtime-error", "drop-connection", "handler-raises", "serializer"]
 CHECK_SETS = [["not_a_server_error"], ["not_a_server_error", "content_type_conformance"], ["not_a_server_error", "status_code_conformance", "content_type_conformance", "response_schema_conformance"], ["status_code_conformance", "response_schema_conformance"]]
 
 
@@ -78,6 +78,10 @@ def build_doc(inp) -> dict:
         paths["/c"] = {"post": {"operationId": "c", "requestBody": {"required": True, "content": {"application/json": {"schema": {"type": "object", "properties": {"n": {"type": "integer"}}, "required": ["n"]}}}},
                                 "responses": {"201": {"description": "ok", "content": {"application/json": {"schema": {"type": "object"}}}, "links": {"l": {"operationId": "g", "parameters": {"id": "$response.body#/id"}}}}}}}
         paths["/c/{id}"] = {"get": {"operationId": "g", "parameters": [{"name": "id", "in": "path", "required": True, "schema": {"type": "integer"}}], "responses": {"200": {"description": "ok", "content": {"application/json": {"schema": {"type": "object"}}}}}}}
+    if inp["fault"] == "serializer":
+        # a body whose media type is handled by a user-registered serializer (which raises)
+        paths["/csv"] = {"post": {"requestBody": {"required": True, "content": {"text/csv": {"schema": {"type": "array", "items": {"type": "object", "properties": {"n": {"type": "integer"}}, "required": ["n"]}, "maxItems": 2}}}},
+                                  "responses": {"200": {"description": "ok", "content": {"application/json": {"schema": {"type": "object"}}}}}}}
     if inp["fault"] == "malformed-operation":
         paths["/broken"] = {"get": {"parameters": [{"$ref": "#/components/parameters/Nope"}], "responses": {"200": {"description": "ok"}}}}
     return {"openapi": "3.0.2", "info": {"title": "t", "version": "1"}, "paths": paths}
@@ -116,7 +120,8 @@ def check_faults(ctx: Ctx, inp) -> None:
 
     fired: dict = {"n": 0}
     fault = inp["fault"]
-    target = inp["ops"][inp["fault_op"]]["path"]
+    target = inp["ops"][inp["fault_op"]]["path"] if fault != "serializer" else "/csv"
+    tlabel = ("POST " if fault == "serializer" else "GET ") + target
     by_path = {op["path"]: op for op in inp["ops"]}
 
     def script(req, ordinal):
@@ -195,6 +200,12 @@ def check_faults(ctx: Ctx, inp) -> None:
         vfw_faulty_check.__name__ = "vfw_faulty_check"
         schemathesis.check(vfw_faulty_check)
         extra_checks = ["vfw_faulty_check"]
+    elif fault == "serializer":
+        from schemathesis.transport.requests import REQUESTS_TRANSPORT
+
+        @REQUESTS_TRANSPORT.serializer("text/csv")
+        def vfw_csv(ctx_, value):
+            boom()
     handler_cls = None
     if fault == "handler-raises":
         from schemathesis.cli.commands.run import handlers as _h  # noqa: F401
@@ -236,6 +247,10 @@ def check_faults(ctx: Ctx, inp) -> None:
     finally:
         shutil.rmtree(workdir, ignore_errors=True)
         H.unregister_all()
+        if fault == "serializer":
+            from schemathesis.transport.requests import REQUESTS_TRANSPORT
+
+            REQUESTS_TRANSPORT.unregister_serializer("text/csv")
         if "vfw_faulty_check" in getattr(CHECKS, "_items", {}):
             CHECKS._items.pop("vfw_faulty_check", None)
         if handler_cls is not None:
@@ -262,7 +277,7 @@ def check_faults(ctx: Ctx, inp) -> None:
     if interrupted:
         ctx.inconclusive_case("run was interrupted")
         return
-    stage = {"before_init_operation": "construction", "malformed-operation": "construction", "binary-example": "construction", "before_generate_query": "generation", "map_query": "generation", "map_case": "generation", "before_call": "transport", "drop-connection": "transport", "after_call": "checks", "check-runtime-error": "checks", "handler-raises": "event-handling"}.get(fault)
+    stage = {"before_init_operation": "construction", "malformed-operation": "construction", "binary-example": "construction", "before_generate_query": "generation", "map_query": "generation", "map_case": "generation", "before_call": "transport", "drop-connection": "transport", "serializer": "serialization", "after_call": "checks", "check-runtime-error": "checks", "handler-raises": "event-handling"}.get(fault)
     # (i) violating responses
     if expected:
         if code == 0:
@@ -290,20 +305,20 @@ def check_faults(ctx: Ctx, inp) -> None:
                         ctx.disagree("reproduction-command-names-a-request-never-sent", f"GET {path}: {url} was not received by the API", input=inp)
     # (ii) faults
     if fault_fired and fault == "before_init_operation":
-        named = f"GET {target}" in _errors_section(output)
+        named = tlabel in _errors_section(output)
         if code == 0 or not named:
             ctx.disagree("fault-lost:before_init_operation-kills-the-producer", f"a raising before_init_operation hook for GET {target} (fired {fired['n']}x): exit code {code}, operation named in an error section: {named}", input=inp)
     elif fault_fired:
         visible = any(m in output for m in ("INJECTED-FAULT", "Internal Error", "CLI Handler Error", "ERRORS", "Schema Error", "Network Error", "Errors:", "errors"))
         if code == 0:
             sig = f"fault-fired-but-exit-code-0:{stage}"
-            ctx.disagree(sig, f"fault {fault} fired {fired['n']}x (target GET {target}) but the run exited 0: {output[-300:]}", input=inp)
+            ctx.disagree(sig, f"fault {fault} fired {fired['n']}x (target {tlabel}) but the run exited 0: {output[-300:]}", input=inp)
         elif inp["max_failures"] is not None:
             pass  # the failure limit may cut the run before the faulty operation is reported
         elif not visible:
             ctx.disagree(f"fault-fired-but-no-error-reported:{stage}", f"fault {fault} fired but the output shows no error section", input=inp)
-        elif stage in ("construction", "generation", "transport", "checks") and fault not in ("malformed-operation",) and f"GET {target}" not in output:
-            ctx.disagree(f"fault-reported-without-naming-the-operation:{stage}", f"fault {fault} on GET {target} is reported, but the operation is not named", input=inp)
+        elif stage in ("construction", "generation", "serialization", "transport", "checks") and fault not in ("malformed-operation",) and tlabel not in output:
+            ctx.disagree(f"fault-reported-without-naming-the-operation:{stage}", f"fault {fault} on {tlabel} is reported, but the operation is not named", input=inp)
     # (iii) exit code 0 => something was tested for every operation
     if code == 0 and not expected and not fault_fired:
         unit = [p for p in inp["phases"] if p in ("coverage", "fuzzing")]
@@ -393,7 +408,7 @@ FLOOR = {"faults": 150, "attribution": 30}
 MANIFEST = {
     "category": "fault_enumeration",
     "technique": "Hypothesis-generated API misbehaviour x engine configuration x one injected fault (through public extension points) run through the real CLI; one-directional oracle from traffic and injector log to exit code and report",
-    "text": "Generated APIs with scripted violations (incl. a second kind of failure joining an already reported one) are run through the real CLI in-process with drawn phases, checks, workers, continue_on_failure, max_failures, unique inputs and at most one fault injected at test construction (malformed operation, non-JSON-serialisable example, raising before_init_operation), generation (raising before_generate / map hooks), transport (raising before_call, dropped connection), check execution (raising after_call / custom check) or event handling (raising CLI handler). If the server log shows a response violating an enabled check, or the injector log shows the fault fired, the exit code must be non-zero and the report must name the operation with that failure's title (and a reproduction command the API really received) or show an error; exit code 0 requires that nothing was violated, no fault fired and every operation was exercised.",
-    "note": "Faults are reached through public extension points only (no source instrumentation); the report is read by stable console markers; serialisation-stage faults (custom serializers) are not injected.",
+    "text": "Generated APIs with scripted violations (incl. a second kind of failure joining an already reported one) are run through the real CLI in-process with drawn phases, checks, workers, continue_on_failure, max_failures, unique inputs and at most one fault injected at test construction (malformed operation, non-JSON-serialisable example, raising before_init_operation), generation (raising before_generate / map hooks), serialization (a raising user-registered serializer), transport (raising before_call, dropped connection), check execution (raising after_call / custom check) or event handling (raising CLI handler). If the server log shows a response violating an enabled check, or the injector log shows the fault fired, the exit code must be non-zero and the report must name the operation with that failure's title (and a reproduction command the API really received) or show an error; exit code 0 requires that nothing was violated, no fault fired and every operation was exercised.",
+    "note": "Faults are reached through public extension points only (no source instrumentation); the report is read by stable console markers.",
 }
 LEVEL = "fault_enumeration"
